@@ -248,6 +248,37 @@ def run(ctx) -> None:
             if o3.kind != "return" or o3.flags.tolist() != [fl.tolist()[p] for p in pi]:
                 ctx.violation(f"C01:input-order:{fname}", {"kind": "relation", **case, "permutation": pi,
                                                           "flags": fl.tolist(), "flags_of_permuted": o3.brief()})
+    # N-D inputs of the pointwise tests: one flag per element, in the input's shape, whatever the memory layout
+    if ctx.shard == 0 or ctx.thorough:
+        for _ in range(ctx.pick(60, 300)):
+            r_, c_ = rng.choice([(2, 3), (3, 2), (1, 4), (4, 1), (3, 3), (2, 2)])
+            flat = [None if rng.random() < 0.2 else rng.choice([0.0, 0.5, 1.0, -1.5, 2.0, 3.0, -4.5]) for _ in range(r_ * c_)]
+            base = gen.arr(flat)
+            layouts = {"C": base.reshape(r_, c_).copy(), "F": np.asfortranarray(base.reshape(r_, c_)),
+                       "T-view": base.reshape(c_, r_).T if False else np.ascontiguousarray(base.reshape(r_, c_).T).T,
+                       "nested-list": [[flat[i * c_ + j] for j in range(c_)] for i in range(r_)],
+                       "f32-F": np.asfortranarray(base.reshape(r_, c_).astype(np.float32)),
+                       "masked-F": np.ma.masked_invalid(np.asfortranarray(base.reshape(r_, c_)))}
+            for fname, extra in (("qartod.gross_range_test", {"fail_span": [-4, 2.5], "suspect_span": [-1, 1]}),
+                                 ("axds.valid_range_test", {"valid_span": (-1, 2)}),
+                                 ("qartod.location_test", {})):
+                ref_kw = {"inp": base, **extra} if "location" not in fname else {"lon": base, "lat": base}
+                ref = client.invoke(fname, ref_kw, check_purity=False)
+                if ref.kind != "return":
+                    continue
+                want = ref.flags.reshape(r_, c_).tolist()
+                for lname, arr_ in layouts.items():
+                    if fname == "axds.valid_range_test" and lname == "nested-list":
+                        continue
+                    kw = {"inp": arr_, **extra} if "location" not in fname else {"lon": arr_, "lat": arr_}
+                    o = client.invoke(fname, kw)
+                    ctx.count("c01.nd_layout_calls")
+                    ctx.case(f"nd|{fname}|{lname}|{r_}x{c_}")
+                    got = None if o.kind != "return" else np.asarray(o.flags).tolist()
+                    if got != want or (o.kind == "return" and o.masked.any()):
+                        ctx.violation(f"C01:nd-layout:{fname}:{lname}",
+                                      {"kind": "call", "func": fname, "layout": lname, "shape": [r_, c_], "values(C order)": flat,
+                                       "expected": want, "observed": o.brief()})
     # history independence: re-issue recorded calls after everything else ran in between
     rng.shuffle(history)
     for mname, kw, flags, case in history[: ctx.pick(400, 2000)]:
